@@ -61,8 +61,20 @@ def pins_session3b():
         mod([('A', Ty('IA5String', alpha=Alpha([('a', 'f')], ext=True)))]), 'A', 'ab', codec='uper')
 
 
+def pins_session3c():
+    # BER REAL: valid non-normalised binary encoding of 5e-324 (mantissa 8, exponent -1077)
+    pin('C04', 'real-exponent-underflow', mod([('A', Ty('REAL'))]), 'A', 5e-324, codec='ber',
+        variant='090481fbcb08', extra_keys=['variant'])
+    # PER/UPER: out-of-root length of 16384 or more
+    pin('C01', 'per-ext-size-fragmentation',
+        mod([('A', Ty('OCTET STRING', size=Rng(0, 10, True)))]), 'A', b'\x98' * 70001, codec='uper')
+    pin('C05', 'per-ext-size-fragmentation',
+        mod([('A', Ty('OCTET STRING', size=Rng(0, 10, True)))]), 'A', b'\x01' * 16384, codec='per')
+
+
 def main():
     late_pins()
+    pins_session3c()
     pins_session3b()
     pins_session3()
     tz1 = datetime.timezone(datetime.timedelta(hours=1))
